@@ -21,17 +21,29 @@ import (
 type DV struct {
 	V ssa.Value
 	I int
+	F int // frame: 0 for the function under analysis, >0 for an inlined callee instance
 }
 
 // Step is one executed instruction.
 type Step struct {
 	In ssa.Instruction
 	I  int // visit number of the instruction's block
+	F  int // frame (0 = the function under analysis)
 }
 
 type bi struct {
 	b *ssa.BasicBlock
 	i int
+	f int
+}
+
+// frame is one activation: the function under analysis or an inlined static callee.
+type frame struct {
+	id     int
+	fn     *ssa.Function
+	visits map[*ssa.BasicBlock]int
+	depth  int
+	parent *frame
 }
 
 type assump struct {
@@ -49,6 +61,11 @@ type Walker struct {
 	MaxPaths int
 	MaxVisit int // visits per block per path (default 2)
 
+	// InlineDepth > 0 explores static module callees inline (their calls, assumptions and results become
+	// part of the caller's path), which keeps rules quiet when a check is moved into a helper.
+	InlineDepth int
+	Inline      func(callee *ssa.Function) bool // optional filter
+
 	Paths    int // complete paths reported
 	Pruned   int // branches cut as infeasible
 	Overflow bool
@@ -65,11 +82,14 @@ type Path struct {
 	assume []assump
 	boolE  map[string]bool
 	nilE   map[string]bool
-	visits map[*ssa.BasicBlock]int
 	snaps  map[bi]map[*ssa.BasicBlock]int
 	res    map[DV]DV
+	inl    map[DV][]DV // results of inlined multi-result calls
 	cells  map[string]DV
 	Blocks []bi
+	frames map[int]*frame
+	nextF  int
+	ExitF  int
 }
 
 // New creates a walker for fn.
@@ -150,12 +170,15 @@ func (w *Walker) Run(visit func(*Path)) {
 		W:      w,
 		boolE:  map[string]bool{},
 		nilE:   map[string]bool{},
-		visits: map[*ssa.BasicBlock]int{},
 		snaps:  map[bi]map[*ssa.BasicBlock]int{},
 		res:    map[DV]DV{},
+		inl:    map[DV][]DV{},
 		cells:  map[string]DV{},
+		frames: map[int]*frame{},
 	}
-	w.explore(p, w.Fn.Blocks[0], nil, visit)
+	root := &frame{id: 0, fn: w.Fn, visits: map[*ssa.BasicBlock]int{}}
+	p.frames[0] = root
+	w.explore(p, root, w.Fn.Blocks[0], nil, visit, nil)
 }
 
 type mark struct {
@@ -170,42 +193,38 @@ type cellUndo struct {
 	had  bool
 }
 
-func (w *Walker) explore(p *Path, b *ssa.BasicBlock, pred *ssa.BasicBlock, visit func(*Path)) {
+// cont is the continuation of an inlined callee: it receives the Return reached and its block visit.
+type cont func(ret *ssa.Return, inst int)
+
+func (w *Walker) explore(p *Path, fr *frame, b *ssa.BasicBlock, pred *ssa.BasicBlock, visit func(*Path), k cont) {
 	if w.Overflow {
 		return
 	}
-	if p.visits[b] >= w.MaxVisit {
+	if fr.visits[b] >= w.MaxVisit {
 		return // bounded unrolling: this path is abandoned (not an exit)
 	}
-	p.visits[b]++
-	inst := p.visits[b]
-	key := bi{b, inst}
-	snap := make(map[*ssa.BasicBlock]int, len(p.visits))
-	for k, v := range p.visits {
-		snap[k] = v
+	fr.visits[b]++
+	inst := fr.visits[b]
+	key := bi{b, inst, fr.id}
+	snap := make(map[*ssa.BasicBlock]int, len(fr.visits))
+	for kk, v := range fr.visits {
+		snap[kk] = v
 	}
 	p.snaps[key] = snap
 	p.Blocks = append(p.Blocks, key)
-	var resAdded []DV
-	var cellsUndo []cellUndo
-	stepMark, assumeMark := len(p.Steps), len(p.assume)
+	st := &blockState{stepMark: len(p.Steps), assumeMark: len(p.assume)}
 
-	undo := func() {
-		for i := len(p.assume) - 1; i >= assumeMark; i-- {
-			a := p.assume[i]
-			if a.isNil {
-				delete(p.nilE, a.key)
-			} else {
-				delete(p.boolE, a.key)
-			}
+	defer func() {
+		p.dropAssumptions(st.assumeMark)
+		p.Steps = p.Steps[:st.stepMark]
+		for _, kk := range st.resAdded {
+			delete(p.res, kk)
 		}
-		p.assume = p.assume[:assumeMark]
-		p.Steps = p.Steps[:stepMark]
-		for _, k := range resAdded {
-			delete(p.res, k)
+		for _, kk := range st.inlAdded {
+			delete(p.inl, kk)
 		}
-		for i := len(cellsUndo) - 1; i >= 0; i-- {
-			u := cellsUndo[i]
+		for i := len(st.cellsUndo) - 1; i >= 0; i-- {
+			u := st.cellsUndo[i]
 			if u.had {
 				p.cells[u.key] = u.prev
 			} else {
@@ -214,14 +233,13 @@ func (w *Walker) explore(p *Path, b *ssa.BasicBlock, pred *ssa.BasicBlock, visit
 		}
 		delete(p.snaps, key)
 		p.Blocks = p.Blocks[:len(p.Blocks)-1]
-		p.visits[b]--
-		if p.visits[b] == 0 {
-			delete(p.visits, b)
+		fr.visits[b]--
+		if fr.visits[b] == 0 {
+			delete(fr.visits, b)
 		}
-	}
-	defer undo()
+	}()
 
-	// phis first: resolve to the operand of the edge taken
+	// phis first: resolve to the operand of the edge taken; all phis read their operands simultaneously
 	predIdx := -1
 	if pred != nil {
 		for i, q := range b.Preds {
@@ -231,11 +249,7 @@ func (w *Walker) explore(p *Path, b *ssa.BasicBlock, pred *ssa.BasicBlock, visit
 			}
 		}
 	}
-	// all phis read their operands simultaneously on entry
-	type pr struct {
-		dv  DV
-		val DV
-	}
+	type pr struct{ dv, val DV }
 	var prs []pr
 	for _, in := range b.Instrs {
 		phi, ok := in.(*ssa.Phi)
@@ -248,79 +262,215 @@ func (w *Walker) explore(p *Path, b *ssa.BasicBlock, pred *ssa.BasicBlock, visit
 		e := phi.Edges[predIdx]
 		ei := 0
 		if ein, ok := e.(ssa.Instruction); ok {
-			ei = p.visits[ein.Block()]
+			ei = fr.visits[ein.Block()]
 			if ein.Block() == b {
-				// value flowing round a self loop comes from the previous visit
-				ei = inst - 1
+				ei = inst - 1 // value flowing round a self loop comes from the previous visit
 			}
 		}
-		prs = append(prs, pr{DV{phi, inst}, DV{e, ei}})
+		prs = append(prs, pr{DV{phi, inst, fr.id}, DV{e, ei, fr.id}})
 	}
 	for _, x := range prs {
 		p.res[x.dv] = x.val
-		resAdded = append(resAdded, x.dv)
+		st.resAdded = append(st.resAdded, x.dv)
 	}
+	w.runFrom(p, fr, b, inst, 0, st, visit, k)
+}
 
-	for _, in := range b.Instrs {
-		p.Steps = append(p.Steps, Step{in, inst})
+type blockState struct {
+	stepMark, assumeMark int
+	resAdded, inlAdded   []DV
+	cellsUndo            []cellUndo
+}
+
+func (p *Path) dropAssumptions(mark int) {
+	for i := len(p.assume) - 1; i >= mark; i-- {
+		a := p.assume[i]
+		if a.isNil {
+			delete(p.nilE, a.key)
+		} else {
+			delete(p.boolE, a.key)
+		}
+	}
+	p.assume = p.assume[:mark]
+}
+
+// inlinable decides whether a call is explored inline.
+func (w *Walker) inlinable(fr *frame, c *ssa.Call) *ssa.Function {
+	if w.InlineDepth <= 0 || fr.depth >= w.InlineDepth {
+		return nil
+	}
+	callee := c.Call.StaticCallee()
+	if callee == nil || len(callee.Blocks) == 0 || len(callee.Blocks) > 60 || len(callee.FreeVars) > 0 || !w.P.InModule(callee) {
+		return nil
+	}
+	if callee.Signature.Variadic() {
+		return nil
+	}
+	for f := fr; f != nil; f = f.parent {
+		if f.fn == callee {
+			return nil // recursion
+		}
+	}
+	for _, b := range callee.Blocks {
+		for _, in := range b.Instrs {
+			switch in.(type) {
+			case *ssa.Defer, *ssa.Go, *ssa.RunDefers, *ssa.Select:
+				return nil
+			}
+		}
+	}
+	if w.Inline != nil && !w.Inline(callee) {
+		return nil
+	}
+	return callee
+}
+
+// runFrom executes the instructions of block b starting at index j.
+func (w *Walker) runFrom(p *Path, fr *frame, b *ssa.BasicBlock, inst, j int, st *blockState, visit func(*Path), k cont) {
+	for ; j < len(b.Instrs); j++ {
+		in := b.Instrs[j]
+		p.Steps = append(p.Steps, Step{in, inst, fr.id})
 		switch x := in.(type) {
 		case *ssa.Store:
-			if a, ok := x.Addr.(*ssa.Alloc); ok && w.tracked[a] {
-				ck := p.Key(p.Operand(x.Addr, b, inst))
+			if a, ok := x.Addr.(*ssa.Alloc); ok && w.isTracked(a) {
+				ck := p.Key(p.OperandF(x.Addr, b, inst, fr.id))
 				prev, had := p.cells[ck]
-				cellsUndo = append(cellsUndo, cellUndo{ck, prev, had})
-				p.cells[ck] = p.Operand(x.Val, b, inst)
+				st.cellsUndo = append(st.cellsUndo, cellUndo{ck, prev, had})
+				p.cells[ck] = p.OperandF(x.Val, b, inst, fr.id)
 			}
 		case *ssa.UnOp:
 			if x.Op == token.MUL {
-				if a, ok := x.X.(*ssa.Alloc); ok && w.tracked[a] {
-					ck := p.Key(p.Operand(x.X, b, inst))
-					dv := DV{x, inst}
+				if a, ok := x.X.(*ssa.Alloc); ok && w.isTracked(a) {
+					ck := p.Key(p.OperandF(x.X, b, inst, fr.id))
+					dv := DV{x, inst, fr.id}
 					if v, ok := p.cells[ck]; ok {
 						p.res[dv] = v
 					} else {
-						p.res[dv] = DV{zeroConst(x.Type()), 0}
+						p.res[dv] = DV{zeroConst(x.Type()), 0, 0}
 					}
-					resAdded = append(resAdded, dv)
+					st.resAdded = append(st.resAdded, dv)
 				}
 			}
+		case *ssa.Extract:
+			tdv := p.Resolve(p.OperandF(x.Tuple, b, inst, fr.id))
+			if rs, ok := p.inl[tdv]; ok && x.Index < len(rs) {
+				dv := DV{x, inst, fr.id}
+				p.res[dv] = rs[x.Index]
+				st.resAdded = append(st.resAdded, dv)
+			}
+		case *ssa.Call:
+			callee := w.inlinable(fr, x)
+			if callee == nil {
+				continue
+			}
+			p.nextF++
+			nf := &frame{id: p.nextF, fn: callee, visits: map[*ssa.BasicBlock]int{}, depth: fr.depth + 1, parent: fr}
+			p.frames[nf.id] = nf
+			var bound []DV
+			for i, pa := range callee.Params {
+				if i < len(x.Call.Args) {
+					pdv := DV{pa, 0, nf.id}
+					p.res[pdv] = p.OperandF(x.Call.Args[i], b, inst, fr.id)
+					bound = append(bound, pdv)
+				}
+			}
+			callDV := DV{x, inst, fr.id}
+			jj := j
+			w.explore(p, nf, callee.Blocks[0], nil, visit, func(ret *ssa.Return, rinst int) {
+				var rs []DV
+				for _, r := range ret.Results {
+					rs = append(rs, p.OperandF(r, ret.Block(), rinst, nf.id))
+				}
+				switch len(rs) {
+				case 0:
+				case 1:
+					p.res[callDV] = rs[0]
+				default:
+					p.inl[callDV] = rs
+				}
+				mark, amark := len(p.Steps), len(p.assume)
+				inner := &blockState{stepMark: mark, assumeMark: amark}
+				w.runFrom(p, fr, b, inst, jj+1, inner, visit, k)
+				// undo what the continuation added
+				p.dropAssumptions(amark)
+				p.Steps = p.Steps[:mark]
+				for _, kk := range inner.resAdded {
+					delete(p.res, kk)
+				}
+				for _, kk := range inner.inlAdded {
+					delete(p.inl, kk)
+				}
+				for i := len(inner.cellsUndo) - 1; i >= 0; i-- {
+					u := inner.cellsUndo[i]
+					if u.had {
+						p.cells[u.key] = u.prev
+					} else {
+						delete(p.cells, u.key)
+					}
+				}
+				delete(p.res, callDV)
+				delete(p.inl, callDV)
+			})
+			for _, pdv := range bound {
+				delete(p.res, pdv)
+			}
+			delete(p.frames, nf.id)
+			return
 		case *ssa.If:
-			cond := p.Operand(x.Cond, b, inst)
-			for k, succ := range b.Succs {
-				want := k == 0
+			cond := p.OperandF(x.Cond, b, inst, fr.id)
+			for kk, succ := range b.Succs {
+				want := kk == 0
 				am := len(p.assume)
 				if p.assumeTruth(cond, want) {
-					w.explore(p, succ, b, visit)
+					w.explore(p, fr, succ, b, visit, k)
 				} else {
 					w.Pruned++
 				}
-				for i := len(p.assume) - 1; i >= am; i-- {
-					a := p.assume[i]
-					if a.isNil {
-						delete(p.nilE, a.key)
-					} else {
-						delete(p.boolE, a.key)
-					}
-				}
-				p.assume = p.assume[:am]
+				p.dropAssumptions(am)
 			}
 			return
 		case *ssa.Jump:
-			w.explore(p, b.Succs[0], b, visit)
+			w.explore(p, fr, b.Succs[0], b, visit, k)
 			return
-		case *ssa.Return, *ssa.Panic:
+		case *ssa.Return:
+			if k != nil {
+				k(x, inst)
+				return
+			}
 			w.Paths++
 			if w.Paths > w.MaxPaths {
 				w.Overflow = true
 				return
 			}
-			p.Exit, p.ExitI = in, inst
+			p.Exit, p.ExitI, p.ExitF = in, inst, fr.id
+			visit(p)
+			p.Exit = nil
+			return
+		case *ssa.Panic:
+			w.Paths++
+			if w.Paths > w.MaxPaths {
+				w.Overflow = true
+				return
+			}
+			p.Exit, p.ExitI, p.ExitF = in, inst, fr.id
 			visit(p)
 			p.Exit = nil
 			return
 		}
 	}
 }
+
+// isTracked: the cell is a non-escaping local of the function under analysis or of an inlined callee.
+func (w *Walker) isTracked(a *ssa.Alloc) bool {
+	if v, ok := w.tracked[a]; ok {
+		return v
+	}
+	v := trackable(a)
+	w.tracked[a] = v
+	return v
+}
+
+var nil0 *ssa.BasicBlock
 
 func zeroConst(t types.Type) *ssa.Const {
 	if b, ok := t.Underlying().(*types.Basic); ok {
@@ -337,35 +487,48 @@ func zeroConst(t types.Type) *ssa.Const {
 }
 
 // Operand returns the dynamic value of operand o as seen by an instruction in block b at visit i.
-func (p *Path) Operand(o ssa.Value, b *ssa.BasicBlock, i int) DV {
+func (p *Path) Operand(o ssa.Value, b *ssa.BasicBlock, i int) DV { return p.OperandF(o, b, i, 0) }
+
+// OperandF is Operand for a user in frame f.
+func (p *Path) OperandF(o ssa.Value, b *ssa.BasicBlock, i, f int) DV {
+	switch o.(type) {
+	case *ssa.Parameter, *ssa.FreeVar:
+		return DV{o, 0, f}
+	}
 	in, ok := o.(ssa.Instruction)
 	if !ok {
-		return DV{o, 0}
+		return DV{o, 0, 0}
 	}
 	ob := in.Block()
+	if b == nil {
+		return DV{o, 0, f}
+	}
 	if ob == b {
-		return DV{o, i}
+		return DV{o, i, f}
 	}
 	if ob == nil || ob.Parent() != b.Parent() {
-		return DV{o, 0}
+		return DV{o, 0, f}
 	}
-	if s, ok := p.snaps[bi{b, i}]; ok {
-		return DV{o, s[ob]}
+	if s, ok := p.snaps[bi{b, i, f}]; ok {
+		return DV{o, s[ob], f}
 	}
-	return DV{o, p.visits[ob]}
+	if fr := p.frames[f]; fr != nil {
+		return DV{o, fr.visits[ob], f}
+	}
+	return DV{o, 0, f}
 }
 
 // Op is Operand for a user given as a dynamic value.
 func (p *Path) Op(o ssa.Value, user DV) DV {
 	in, ok := user.V.(ssa.Instruction)
 	if !ok || in.Block() == nil {
-		return DV{o, 0}
+		return p.OperandF(o, nil0, 0, user.F)
 	}
-	return p.Operand(o, in.Block(), user.I)
+	return p.OperandF(o, in.Block(), user.I, user.F)
 }
 
 // StepOp is Operand for a user given as a step.
-func (p *Path) StepOp(o ssa.Value, s Step) DV { return p.Operand(o, s.In.Block(), s.I) }
+func (p *Path) StepOp(o ssa.Value, s Step) DV { return p.OperandF(o, s.In.Block(), s.I, s.F) }
 
 // Resolve follows phi and tracked-cell-load resolutions and transparent conversions.
 func (p *Path) Resolve(dv DV) DV {
@@ -416,7 +579,12 @@ func (p *Path) Key(dv DV) string {
 		return "<none>"
 	}
 	dv = p.Resolve(dv)
-	id := func() string { return fmt.Sprintf("#%s@%d", dv.V.Name(), dv.I) }
+	id := func() string {
+		if dv.F != 0 {
+			return fmt.Sprintf("#%s@%d/f%d", dv.V.Name(), dv.I, dv.F)
+		}
+		return fmt.Sprintf("#%s@%d", dv.V.Name(), dv.I)
+	}
 	switch v := dv.V.(type) {
 	case *ssa.Const:
 		if v.Value == nil {
@@ -427,6 +595,9 @@ func (p *Path) Key(dv DV) string {
 		}
 		return "c:" + v.Value.ExactString()
 	case *ssa.Parameter:
+		if dv.F != 0 {
+			return fmt.Sprintf("p:%s/f%d", v.Name(), dv.F)
+		}
 		return "p:" + v.Name()
 	case *ssa.FreeVar:
 		return "fv:" + v.Name()
@@ -738,19 +909,44 @@ func (p *Path) Nil(dv DV, at int) (isNil, known bool) {
 
 // ResultKey is the key of result idx of a call (idx < 0: the single result).
 func (p *Path) ResultKey(call DV, idx int) string {
+	if rd, ok := p.InlinedResult(call, idx); ok {
+		return p.Key(rd)
+	}
 	if idx < 0 {
 		return p.Key(call)
 	}
 	return fmt.Sprintf("x%d(%s)", idx, p.Key(call))
 }
 
+// InlinedResult returns the value an inlined call returned as result idx on this path.
+func (p *Path) InlinedResult(call DV, idx int) (DV, bool) {
+	if rs, ok := p.inl[call]; ok {
+		if idx >= 0 && idx < len(rs) {
+			return rs[idx], true
+		}
+		return DV{}, false
+	}
+	if r, ok := p.res[call]; ok {
+		if _, isCall := call.V.(*ssa.Call); isCall && idx <= 0 {
+			return r, true
+		}
+	}
+	return DV{}, false
+}
+
 // ResultNil reports the assumed nil-ness of result idx of call before step at.
 func (p *Path) ResultNil(call DV, idx, at int) (isNil, known bool) {
+	if rd, ok := p.InlinedResult(call, idx); ok {
+		return p.Nil(rd, at)
+	}
 	return p.lookup(p.ResultKey(call, idx), true, at)
 }
 
 // ResultTruth reports the assumed truth of boolean result idx of call before step at.
 func (p *Path) ResultTruth(call DV, idx, at int) (val, known bool) {
+	if rd, ok := p.InlinedResult(call, idx); ok {
+		return p.Truth(rd, at)
+	}
 	return p.lookup(p.ResultKey(call, idx), false, at)
 }
 
@@ -764,7 +960,7 @@ func (p *Path) SameKey(a DV, key string) bool { return p.Key(a) == key }
 func (p *Path) DVOf(i int) DV {
 	s := p.Steps[i]
 	v, _ := s.In.(ssa.Value)
-	return DV{v, s.I}
+	return DV{v, s.I, s.F}
 }
 
 // Assumptions renders the assumptions made before step at, for reports.
